@@ -98,11 +98,13 @@ pub struct TProbe {
   pub after_cut: Option<Arc<AtomicBool>>,
   pub clock: Option<Arc<std::sync::atomic::AtomicU64>>,
   pub deliveries: Option<Arc<Mutex<Vec<(u64, usize, PEv)>>>>,
+  /// subscribe one more probe to input 0 from inside the first `next` callback
+  pub nest: Option<World>,
 }
 thread_local! { pub static TID: std::cell::Cell<usize> = std::cell::Cell::new(0); }
 
 impl TProbe {
-  fn cb(&self, e: PEv) {
+  fn cb(&mut self, e: PEv) {
     let tid = TID.with(|t| t.get());
     if let (Some(c), Some(a)) = (&self.cut, &self.after_cut) {
       if c.load(Ordering::SeqCst) {
@@ -114,6 +116,10 @@ impl TProbe {
       d.lock().unwrap().push((t, self.id, e.clone()));
     }
     self.log.lock().unwrap().push((self.id, Mark::Enter(tid, e)));
+    if let Some(w) = self.nest.take() {
+      let id = w.subscribe(w.pipe(0));
+      w.nested_probes.lock().unwrap().push(id);
+    }
     engine_t::explicit_yield();
     self.log.lock().unwrap().push((self.id, Mark::Leave(tid)));
   }
@@ -122,10 +128,10 @@ impl Observer<Item, Er> for TProbe {
   fn next(&mut self, v: Item) {
     self.cb(PEv::N(v))
   }
-  fn error(self, e: Er) {
+  fn error(mut self, e: Er) {
     self.cb(PEv::E(e))
   }
-  fn complete(self) {
+  fn complete(mut self) {
     self.cb(PEv::C)
   }
   fn is_finished(&self) -> bool {
@@ -158,8 +164,25 @@ pub fn events_of(log: &[(usize, Mark)], probe: usize) -> Vec<PEv> {
 
 // ------------------------------------------------------------ pipelines ----
 
-pub const PIPES: [&str; 9] =
-  ["SubjectThreads", "merge_threads", "zip_threads", "combine_latest_threads", "merge_all_threads", "take_until_threads", "share_threads", "observe_on_threads", "delay_threads"];
+pub const PIPES: [&str; 12] = [
+  "SubjectThreads",
+  "merge_threads",
+  "zip_threads",
+  "combine_latest_threads",
+  "merge_all_threads",
+  "take_until_threads",
+  "share_threads",
+  "observe_on_threads",
+  "delay_threads",
+  // beyond C10's list (used by the thread parts of C02)
+  "debounce",
+  "throttle_time:trailing",
+  "buffer_with_time",
+];
+/// pipelines that need the worker thread (scheduler)
+pub fn uses_scheduler(kind: usize) -> bool {
+  kind % PIPES.len() >= 7
+}
 
 #[derive(Clone)]
 pub struct World {
@@ -174,6 +197,8 @@ pub struct World {
   pub calls: Arc<Mutex<Vec<CallRec>>>,
   /// (time, probe, event) of every delivery
   pub deliveries: Arc<Mutex<Vec<(u64, usize, PEv)>>>,
+  /// probes that were subscribed from inside a callback
+  pub nested_probes: Arc<Mutex<Vec<usize>>>,
 }
 
 impl World {
@@ -188,13 +213,17 @@ impl World {
       clock: Arc::new(std::sync::atomic::AtomicU64::new(0)),
       calls: Arc::new(Mutex::new(vec![])),
       deliveries: Arc::new(Mutex::new(vec![])),
+      nested_probes: Arc::new(Mutex::new(vec![])),
     }
   }
 
   pub fn pipe(&self, kind: usize) -> Pipe {
     let (a, b) = (self.hot[0].clone(), self.hot[1].clone());
     let sched = self.queue.spawner();
-    match kind % 9 {
+    match kind % PIPES.len() {
+      9 => a.debounce(ticks(1), sched).box_it(),
+      10 => a.throttle_time(ticks(1), rxrust::ops::throttle::ThrottleEdge::tailing(), sched).box_it(),
+      11 => a.buffer_with_time(ticks(1), sched).map(|b: Vec<Item>| b.into_iter().sum::<Item>()).box_it(),
       0 => a.box_it(),
       1 => a.merge_threads(b).box_it(),
       2 => a.zip_threads(b).map(|(x, y): (Item, Item)| x * 1000 + y).box_it(),
@@ -214,7 +243,8 @@ impl World {
       5 => a.take_until_threads(b).box_it(),
       6 => a.share_threads().box_it(),
       7 => a.observe_on_threads(sched).box_it(),
-      _ => a.delay_threads(ticks(1), sched).box_it(),
+      8 => a.delay_threads(ticks(1), sched).box_it(),
+      _ => unreachable!(),
     }
   }
 
@@ -225,7 +255,29 @@ impl World {
       *n += 1;
       *n - 1
     };
-    let p = TProbe { id, log: self.log.clone(), cut: None, after_cut: None, clock: Some(self.clock.clone()), deliveries: Some(self.deliveries.clone()) };
+    self.subscribe_probe(pipe, id, false)
+  }
+
+  /// like `subscribe`, but the probe subscribes a further probe to input 0 from inside its first callback
+  pub fn subscribe_nesting(&self, pipe: Pipe) -> usize {
+    let id = {
+      let mut n = self.next_probe.lock().unwrap();
+      *n += 1;
+      *n - 1
+    };
+    self.subscribe_probe(pipe, id, true)
+  }
+
+  fn subscribe_probe(&self, pipe: Pipe, id: usize, nesting: bool) -> usize {
+    let p = TProbe {
+      id,
+      log: self.log.clone(),
+      cut: None,
+      after_cut: None,
+      clock: Some(self.clock.clone()),
+      deliveries: Some(self.deliveries.clone()),
+      nest: if nesting { Some(self.clone()) } else { None },
+    };
     let s = pipe.actual_subscribe(p);
     self.subs.lock().unwrap().push(Some(s));
     self.sub_probe.lock().unwrap().push(id);
